@@ -212,6 +212,8 @@ def quiet():
 
 def reset_all():
     build._WARM.clear()  # pylint: disable=protected-access
+    if pb.get_debug():
+        pb.set_debug(False)
     PreferredUnits.defaults()
     pb.reset_globals()
 
